@@ -8,7 +8,7 @@ from . import hcm
 from .core import Prop
 
 LEVELS = [-200, -100, 0, 100, 200]
-RATIOS = [[1], [1, 2], [2, 1], [1, 3, 2], [3, 1], [2, 3, 1, 4]]
+RATIOS = [[1], [1, 2], [2, 1], [1, 3, 2], [3, 1], [2, 3, 1, 4], [1, 0, 2], [2, 0], [1, 3, 0]]      # 0: an unloaded point (never the first)
 COLS = ["loads_min", "loads_max", "S_min", "S_max", "epsilon_min", "epsilon_max"]
 DERIVED = ["S_a", "S_m", "epsilon_a", "epsilon_m", "R"]
 
@@ -65,11 +65,15 @@ class C05(Prop):
                     if two_distinct(s) and s not in seen:
                         seen.add(s)
                         k = (sum(s) // 100 + n) % 3
-                        yield {"kind": "seq", "law": "sat" if (s[0] // 100) % 2 else "linear", "samples": list(s), "ratios": [[1], [1, 2], [1, 3, 2]][k]}
+                        lab = list(hcm.LABELS)[(sum(abs(x) for x in s) // 100 + 2 * n) % len(hcm.LABELS)]
+                        yield {"kind": "seq", "law": "sat" if (s[0] // 100) % 2 else "linear", "samples": list(s), "ratios": [[1], [1, 2], [1, 3, 2]][k],
+                               "labels": lab}
         nrand = 300 if tier == "quick" else 4000
         for _ in range(nrand):
             n = rng.randint(2, 12)
-            lv = rng.choice([[-400, -300, -200, -100, 0, 100, 200, 300, 400], [-350, -125, 0, 75, 250, 400], LEVELS])
+            # near ties: load ranges / |load| against the running maximum that differ by 1e-6 relative (exact integers):
+            # the procedure's comparisons are exact, a relative tolerance decides these differently
+            lv = rng.choice([[-400, -300, -200, -100, 0, 100, 200, 300, 400], [-350, -125, 0, 75, 250, 400], LEVELS, hcm.NEAR_TIE_LEVELS])
             s = [rng.choice(lv) for _ in range(n)]
             if not two_distinct(s):
                 continue
@@ -151,6 +155,13 @@ class C05(Prop):
         # (ii) batch = single for proportional load histories
         if n > 1:
             for k in range(n):
+                if ratios[k] == 0:
+                    # an unloaded point: everything it records is zero (and it must not disturb the others)
+                    for hb in rows:
+                        for c in COLS + ["epsilon_min_LF", "epsilon_max_LF"]:
+                            if hb[c][k] != 0:
+                                return (f"point {k} carries no load but column {c} is {hb[c][k]} (sequence {s}, ratios {ratios})", "batch-vs-single")
+                    continue
                 _d, _r, single = rows_of([ratios[k] * x for x in s], [1], lawname)
                 if len(single) != len(rows):
                     return (f"point {k}: {len(rows)} hystereses in the batch, {len(single)} alone", "batch-vs-single")
